@@ -32,7 +32,8 @@ CLAIM = (
     "amplitude equals the measured amplitudes and is idempotent, single and mixed state, for signal scales 1e-4..30; and for every ordered pair "
     "(thorough: triple) of calls from an alphabet built to collide on coarse cache keys, the last call still obeys its identities, agrees with the same call "
     "executed alone, and the propagators equal the closed-form Fresnel kernel of their own sampling; every accepted spelling of the shift and data arguments (dtype, container, shape, "
-    "layout; four shifting entry points) gives the answer of the canonical float32 spelling, a roll for integer values, and composes with a fractional shift. Exhaustive lattice exploration with the linearity "
+    "layout; four shifting entry points) gives the answer of the canonical float32 spelling, a roll for integer values, and composes with a fractional shift; the propagators are unit-modulus, "
+    "invertible and intensity-preserving over the whole range 0.5 keV..1 MeV x 0.05..3 A sampling x 1e-3..1e5 A thickness x tilts up to 150 mrad, including wavelength*k_max >= 1. Exhaustive lattice exploration with the linearity "
     "argument is the right level: the data quantifier is closed by the basis, the defects live in shape parity, axis order and index handling."
 )
 NOTE = (
@@ -1279,6 +1280,125 @@ def w_spelling(item, seed=0, quick=True):
     return t
 
 
+# ----------------------------------------------------------------------------- H. parameter range of the propagation identities
+# The property quantifies over slice thicknesses, tilts and energies without bounds, so the propagation identities are also run over the
+# whole physical RANGE, not only at ordinary TEM settings: energies 0.5 keV .. 1 MeV x real-space samplings 0.05 .. 3 A (isotropic and
+# anisotropic) x thicknesses 1e-3 .. 1e5 A x tilts {0, small, large} - in particular the corner wavelength * k_max >= 1, where a band limit
+# ("evanescent waves") would make the propagator vanish. Root-cause relation: |propagator| == 1 on the whole grid. Float32 precision: the
+# kernel phase phi = pi*lambda*dz*k^2 (+ tilt term) is computed in complex64, so exp(i phi) carries an absolute phase error of about
+# eps32 * |phi|. Unit modulus, +d/-d and intensity conservation do not depend on it (judged at 1e-5 everywhere); additivity K(a)K(b) = K(a+b)
+# does, and is judged at 1e-5 + RANGE_ADD_C * eps32 * phi_max (measured on the unchanged tree, seeds {0,1,2,7,12345}, 7 ROI shapes: worst error /
+# (eps32 * phi_max) = 1.2 -> RANGE_ADD_C = 25, 21x; |K|-1 1.9e-7, chain intensity 2.0e-7, +d/-d 4.2e-7, forward chain 8.5e-7); where that bound exceeds 0.5 the phase is beyond float32 resolution and additivity is not judged (counted).
+RANGE_ENERGIES = [0.5e3, 1e3, 5e3, 20e3, 80e3, 300e3, 1000e3]
+RANGE_SAMPLINGS = [(0.05, 0.05), (0.15, 0.15), (0.4, 0.4), (1.0, 1.0), (3.0, 3.0), (0.05, 0.4), (0.15, 1.0), (3.0, 0.4)]
+RANGE_THICK = [1e-3, 1.0, 10.0, 1e3, 1e5]
+RANGE_TILTS = [(0.0, 0.0), (3.0, -2.0), (150.0, -80.0)]
+RANGE_ADD_C = 25.0
+EPS32 = 1.1920929e-07
+
+
+def phase_max(roi, energy, samp, tilt, dz):
+    kr = np.abs(np.fft.fftfreq(roi[0], samp[0])).max()
+    kc = np.abs(np.fft.fftfreq(roi[1], samp[1])).max()
+    lam = wavelength(energy)
+    return abs(dz) * (np.pi * lam * (kr**2 + kc**2) + 2 * np.pi * (kr * abs(math.tan(tilt[0] * 1e-3)) + kc * abs(math.tan(tilt[1] * 1e-3))))
+
+
+@guarded
+def w_range(item, seed=0):
+    torch = _torch()
+    roi, energy, samp = item
+    roi, samp = tuple(roi), tuple(samp)
+    R, C = roi
+    t = Tally()
+    lam = wavelength(energy)
+    kmax = math.hypot(np.abs(np.fft.fftfreq(R, samp[0])).max(), np.abs(np.fft.fftfreq(C, samp[1])).max())
+    corner = bool(lam * kmax >= 1.0)
+    S = len(RANGE_THICK) + 1
+    pt = build(roi, S, 2, "pure_phase", energy, (0.0, 0.0), seed, thick=RANGE_THICK, sampling=samp)
+    gen = getattr(pt.probe_model, "_compute_propagator_arrays", None)
+    rng = np.random.default_rng([seed, 16, 11, R, C])
+    x = torch.tensor(rng.normal(size=(1, 3, R, C)) + 1j * rng.normal(size=(1, 3, R, C)))
+    ones = torch.ones(S, 1, R, C, dtype=torch.complex128)
+    sums = [RANGE_THICK[i] + RANGE_THICK[i + 1] for i in range(len(RANGE_THICK) - 1)] + [RANGE_THICK[0]]
+    for tilt in RANGE_TILTS:
+        base = {"kind": "range", "roi": list(roi), "energy": energy, "sampling": list(samp), "tilt": list(tilt)}
+        cls0 = {"wavelength_times_kmax_at_least_one": corner, "tilted": tilt != (0.0, 0.0)}
+        where = f"roi={roi} energy={energy:g} eV (wavelength {lam:.4g} A) sampling={samp} A (wavelength*k_max = {lam * kmax:.3g}) tilt={tilt} mrad"
+        t.case(key=base, nontrivial=True, outcome=[corner, round(lam * kmax, 3)])
+        with library("compute_propagator_arrays/propagators"):
+            pt.probe_model.probe_tilt = tilt
+            pt.slice_thicknesses = RANGE_THICK
+            pt.compute_propagator_arrays()
+            K = pt.propagators.detach().numpy().astype(np.complex128)
+        if K.shape != (S - 1, R, C) or not np.isfinite(K).all():
+            t.fail({"relation": "propagator_finite", **cls0}, base, f"{where}: propagators have shape {K.shape} / {int((~np.isfinite(K)).sum())} non-finite entries")
+            continue
+        dev = np.abs(np.abs(K) - 1).reshape(S - 1, -1).max(axis=1)
+        t.stat("range_propagator_modulus_dev", float(dev.max()))
+        if float(dev.max()) > TOL:
+            i = int(np.argmax(dev))
+            nz = int((np.abs(K[i]) < 0.5).sum())
+            t.fail({"relation": "propagator_unit_modulus", **cls0}, dict(base, thickness=RANGE_THICK[i]), f"{where} thickness={RANGE_THICK[i]:g} A: | |propagator| - 1 | = {dev[i]:.3g} ({nz} of {R * C} Fourier pixels are below 0.5 in modulus)")
+        # intensity through the chain of all five gaps, public overlap_projection with unit patches
+        with library("overlap_projection"), torch.no_grad():
+            pp, _ = pt.overlap_projection(ones, x)
+        en = (pp.abs() ** 2).sum(dim=(-2, -1)).numpy()[:, 0]  # (S, 3)
+        e = float(np.abs(en / en[0] - 1).max())
+        t.stat("range_propagation_energy_dev", e)
+        if e > TOL:
+            t.fail({"relation": "propagation_preserves_intensity", **cls0}, base, f"{where}: total intensity along the slice chain {RANGE_THICK} A changes by {e:.3g} (ratios {(en[:, 0] / en[0, 0]).round(4).tolist()})")
+        # additivity, public route: K(a) K(b) against K(a+b) from a second thickness list
+        with library("compute_propagator_arrays/propagators"):
+            pt.slice_thicknesses = sums
+            pt.compute_propagator_arrays()
+            Ks = pt.propagators.detach().numpy().astype(np.complex128)
+        for i in range(len(RANGE_THICK) - 1):
+            a, b = RANGE_THICK[i], RANGE_THICK[i + 1]
+            phi = phase_max(roi, energy, samp, tilt, a + b)
+            bound = TOL + RANGE_ADD_C * EPS32 * phi
+            case = dict(base, a=a, b=b)
+            t.case(key=case, nontrivial=True)
+            if bound > 0.5:
+                t.extra["range_additivity_not_judged_phase_beyond_float32"] += 1
+                continue
+            e = float(np.abs(K[i] * K[i + 1] - Ks[i]).max())
+            t.stat("range_additivity_err_over_eps32_phi", e / max(EPS32 * phi, 1e-30) if phi * EPS32 > TOL else 0.0)
+            t.stat("range_additivity_err_over_bound", e / bound)
+            if e > bound:
+                t.fail({"relation": "propagation_additive", **cls0}, case, f"{where}: K({a:g}) K({b:g}) differs from K({a + b:g}) by {e:.3g} (bound {bound:.3g} at phase {phi:.3g} rad)")
+        # +d / -d, signed distances through the internal generator when present
+        if gen is None:
+            t.extra["seam_missing__compute_propagator_arrays"] += 1
+        else:
+            with library("_compute_propagator_arrays"):
+                Kp = gen(pt.sampling, S, np.array(RANGE_THICK))
+                Kn = gen(pt.sampling, S, -np.array(RANGE_THICK))
+            e = float((Kp * Kn - 1).abs().max())
+            t.stat("range_inverse_kernel_dev", e)
+            if not bool(torch.isfinite((Kp * Kn).abs()).all()) or e > TOL:
+                i = int(np.argmax((Kp * Kn - 1).abs().reshape(S - 1, -1).max(dim=1).values.numpy()))
+                t.fail({"relation": "propagation_inverse", **cls0}, dict(base, thickness=RANGE_THICK[i]), f"{where}: K(+{RANGE_THICK[i]:g}) K(-{RANGE_THICK[i]:g}) differs from 1 by {e:.3g}")
+            with library("propagators setter/overlap_projection"), torch.no_grad():
+                pt.propagators = torch.stack([Kp[1], Kn[1], Kp[3], Kn[3], Kp[0]])
+                pp, _ = pt.overlap_projection(ones, x)
+            e = max(float((pp[2] - x).abs().max()), float((pp[4] - x).abs().max())) / float(x.abs().max())
+            t.stat("range_inverse_operator_dev", e)
+            if e > TOL:
+                t.fail({"relation": "propagation_inverse", **cls0}, base, f"{where}: propagating by +d then -d (d = {RANGE_THICK[1]:g}, {RANGE_THICK[3]:g} A) changes the wave by {e:.3g} of its maximum")
+        # pure-phase object: summed predicted intensity per pattern equals the probe intensity (6 slices, 2 modes)
+        with library("compute_propagator_arrays/propagators"):
+            pt.slice_thicknesses = RANGE_THICK
+            pt.compute_propagator_arrays()
+        want, amp_dev, out = forward_totals(pt, roi, S, 2, "pure_phase", seed)
+        worst = max(float(np.abs(tot / want - 1).max()) if np.isfinite(tot).all() else float("inf") for _i, tot, _s in out)
+        t.stat("range_forward_energy_rel_dev", worst)
+        if amp_dev <= TOL and worst > TOL_FWD:
+            t.fail({"relation": "pure_phase_conserves_intensity", **cls0, "multislice": True, "mixed": True}, base, f"{where}: summed predicted intensity / sum |probe|^2 deviates from 1 by {worst:.3g} (6 slices {RANGE_THICK} A, 2 modes)")
+    t.sample({"kind": "range", "roi": list(roi), "energy": energy, "sampling": list(samp), "wavelength_times_kmax": round(lam * kmax, 4)}, cap=2)
+    return t
+
+
 # ----------------------------------------------------------------------------- driver
 GEOMS = ["single_interior", "raster_interior", "raster_wrap", "repeated_patch", "tight_object", "object_smaller_than_roi", "library_raster"]
 
@@ -1311,6 +1431,9 @@ def run(ctx):
         "torch positions on the unchanged tree) is counted per spelling class (count_rejected_*), never flagged, so a change that turns an accepted spelling into an exception shows only in those counters",
         "real-valued data arrays (float32/float64) are outside the quantifier ('for all complex arrays/probe stacks'; every library caller passes complex probes): they are run and compared with the real part of the complex result, "
         "but only counted (count_observed_real_array_differs_from_real_part_of_complex_result). On the unchanged tree fourier_shift_expand casts the complex phase ramp to the real dtype of the data, so a real array comes back essentially untranslated (deviation 0.8-0.9 of the maximum)",
+        "parameter range: energies 0.5 keV..1 MeV x samplings 0.05..3 A (isotropic and anisotropic) x thicknesses 1e-3..1e5 A x tilts {0, (3,-2), (150,-80) mrad} are all inside the quantifier; unit modulus, "
+        "+d/-d, chain intensity and pure-phase intensity are judged at the ordinary tolerances everywhere (the unchanged tree meets them on the whole grid, no zero or NaN anywhere); additivity depends on the "
+        "float32 phase and is judged at 1e-5 + 25*eps32*phase_max (21x the measured worst), not judged where that bound exceeds 0.5 (count_range_additivity_not_judged_phase_beyond_float32)",
         "the closed-form Fresnel kernel is compared for information only (max_fresnel_kernel_dev), kernel values are the subject of C02",
     )
 
@@ -1356,6 +1479,18 @@ def run(ctx):
     fitems = [(roi, S, M, ot, e, x) for roi in rois2 for S in (1, 2, 3, 4) for M in (1, 2, 3) for ot in ("pure_phase", "potential") for e, x in et]
     ctx.pmap(w_forward, fitems, chunk=2, label="pure-phase intensity conservation", seed=ctx.seed)
     ctx.pmap(w_proj, list(itertools.product(rois2, [1, 2, 3])), chunk=1, label="Fourier projection", seed=ctx.seed, nseeded=2 if q else 6)
+    rg_rois = [(7, 10), (8, 8)] if q else ROIS + ROIS_EXTRA + [(12, 16)]
+    ctx.coverage["alphabet"]["parameter_range"] = {
+        "roi": [list(r) for r in rg_rois],
+        "energies_eV": RANGE_ENERGIES,
+        "samplings_A": [list(x) for x in RANGE_SAMPLINGS],
+        "thicknesses_A": RANGE_THICK,
+        "tilts_mrad": [list(x) for x in RANGE_TILTS],
+        "additivity_bound": "1e-5 + 25 * eps32 * phase_max; not judged where it exceeds 0.5",
+    }
+    before = ctx.tally.n
+    ctx.pmap(w_range, list(itertools.product(rg_rois, RANGE_ENERGIES, RANGE_SAMPLINGS)), chunk=2, label="propagation identities over the parameter range", seed=ctx.seed)
+    ctx.coverage["parameter_range_points"] = ctx.tally.n - before
     sp_rois = [(7, 10), (6, 6)] if q else ROIS + ROIS_EXTRA
     ctx.coverage["alphabet"]["spellings"] = {
         "roi": [list(r) for r in sp_rois],
@@ -1399,7 +1534,11 @@ def replay(ctx, case):
     t = Tally()
     k = case["kind"]
     seed = ctx.seed
-    if k == "spelling":
+    if k == "range":
+        t = w_range((case["roi"], case["energy"], case["sampling"]), seed=seed)
+        keep = [f for f in t.fails if f["case"].get("tilt") == case.get("tilt")]
+        t.fails = keep or t.fails
+    elif k == "spelling":
         judge_spelling(t, tuple(case["roi"]), case["spelling"], seed)
     elif k == "call_history":
         hist = case["history"]
